@@ -91,7 +91,94 @@ func normToken(s string) (string, bool) {
 // afterPure evaluates the pure-op oracles; op / args are the split op line, obs the observation.
 func (c *Checker) afterPure(line, op string, args []string, obs string) {
 	line = strings.TrimRight(line, "\r\n")
+	if obs == "panic" {
+		// totality of the pure functions: parsers / builders (C12), codec (C14), helpers (C20)
+		prop := "C20"
+		switch {
+		case strings.HasPrefix(op, "parse") || strings.HasPrefix(op, "build") || op == "enccall":
+			prop = "C12"
+		case strings.HasPrefix(op, "enc") || strings.HasPrefix(op, "dec") || strings.HasPrefix(op, "big"):
+			prop = "C14"
+		}
+		c.Report(prop, line, op+" panicked")
+		c.enc = encMemo{}
+		return
+	}
 	switch op {
+	case "epoch":
+		if obs == "epoch ok" && len(args) == 2 {
+			if e, err := strconv.ParseUint(args[1], 10, 64); err == nil {
+				for s := 0; s < c.w.NumShards(); s++ {
+					if args[0] == "*" || args[0] == strconv.Itoa(s) {
+						c.lastEpoch[s] = e
+					}
+				}
+			}
+		}
+	case "active":
+		// C18: the three gated functions are active iff the last confirmed epoch >= activation epoch
+		// (inactive before the first notification, see harness NOTES 15); the others always
+		if len(args) != 2 || !strings.HasPrefix(obs, "active ") {
+			return
+		}
+		shard, err := strconv.Atoi(args[0])
+		if err != nil {
+			return
+		}
+		want := "active nofunc"
+		if builtinSet[args[1]] {
+			want = "active 1"
+			if args[1] == FnNFTAddURI || args[1] == FnNFTUpdate || args[1] == FnMultiTransfer {
+				if e, ok := c.lastEpoch[shard]; !ok || e < c.activation {
+					want = "active 0"
+				}
+			}
+		}
+		if obs != want {
+			c.Report("C18", line, "answered `"+obs+"`, expected `"+want+"` (activation epoch "+strconv.FormatUint(c.activation, 10)+")")
+		}
+	case "registry":
+		if want := "registry " + strings.Join(AllFunctions, ","); strings.HasPrefix(obs, "registry ") && obs != want {
+			c.Report("C18", line, "registry is `"+obs+"`, expected `"+want+"`")
+		}
+	case "build", "enccall", "buildstorage":
+		// C12: parse(build(x)) = x on the stated domains; remembered until the next parse op
+		c.enc = encMemo{}
+		f := strings.Split(obs, " ")
+		if len(f) != 2 || f[0] != "ok" || len(args) == 0 {
+			return
+		}
+		if op == "buildstorage" {
+			// domain: non-empty list whose first offset is non-empty
+			items := strings.Split(strings.ToLower(args[0]), ",")
+			for i, it := range items {
+				p := strings.Split(it, ":")
+				if len(p) != 2 {
+					return
+				}
+				items[i] = normHexField(p[0]) + ":" + normHexField(p[1])
+			}
+			if args[0] == "-" || strings.HasPrefix(items[0], ":") {
+				return
+			}
+			c.enc = encMemo{kind: "parsestorage", bytes: f[1], value: strings.Join(items, ","), line: line, ok: true}
+			return
+		}
+		// domain: function name non-empty and without '@'
+		fn := strings.ToLower(args[0])
+		if fn == "-" || strings.Contains(fn, "40") && hasAtByte(fn) {
+			return
+		}
+		c.enc = encMemo{kind: "parsecall", bytes: f[1], value: fn + " " + strings.ToLower(strings.Join(args[1:], ",")), line: line, ok: true}
+	case "parsecall", "parsestorage":
+		m := c.enc
+		c.enc = encMemo{}
+		if !m.ok || m.kind != op || len(args) != 1 || args[0] != m.bytes {
+			return
+		}
+		if obs != "ok "+m.value {
+			c.Report("C12", line, "parse(build(x)) != x: `"+m.line+"` produced "+m.bytes+" which parses to `"+obs+"`, expected `ok "+m.value+"`")
+		}
 	case "mergeseq":
 		if !strings.HasPrefix(obs, "ok ") {
 			return
@@ -147,4 +234,14 @@ func (c *Checker) afterPure(line, op string, args []string, obs string) {
 	default:
 		c.enc = encMemo{}
 	}
+}
+
+// hasAtByte tells whether the hex string contains the byte 0x40 ('@') at a byte boundary.
+func hasAtByte(h string) bool {
+	for i := 0; i+1 < len(h); i += 2 {
+		if h[i] == '4' && h[i+1] == '0' {
+			return true
+		}
+	}
+	return false
 }
